@@ -54,7 +54,7 @@ Proof. unfold denote. destruct (i_src im); [discriminate|apply fresh_read_no_cra
 
 (* ------------------------------------------------------------------ (1) a save never crashes *)
 Definition is_write (o : op) : bool :=
-  match o with Save _ _ | SaveU8 _ _ | ToBytes _ | SaveFull _ => true | _ => false end.
+  match o with Save _ _ | SaveU8 _ _ | ToFilename _ _ | ToBytes _ | SaveFull _ => true | _ => false end.
 
 (* the header dtype used for this save only (SaveU8) *)
 Definition with_hdt (im : image) (hd : option dtype) : image :=
@@ -68,12 +68,12 @@ Qed.
 
 (* the image slots after a save: only the saving image's slot may change (it is re-pointed) *)
 Definition imgs_after (g : cfg) (w : world) (s t : nat) (im0 : image) (v : option nat) : list (option image) :=
-  if repoints g im0 (pi_fmt (pinfo_of g t)) t then upd s (Some (repointed im0 v)) (w_imgs w) else w_imgs w.
+  if repoints g im0 (tfmt g im0 t) t then upd s (Some (repointed im0 v)) (w_imgs w) else w_imgs w.
 
 Lemma imgs_after_other g w s t im0 v s' : s' <> s -> nth s' (imgs_after g w s t im0 v) None = nth s' (w_imgs w) None.
 Proof. intros H. unfold imgs_after. destruct (repoints _ _ _ _); [now apply nth_upd_other|reflexivity]. Qed.
 Lemma imgs_after_same g w s t im0 v : img_at w s = Some im0 ->
-  nth s (imgs_after g w s t im0 v) None = Some (if repoints g im0 (pi_fmt (pinfo_of g t)) t then repointed im0 v else im0).
+  nth s (imgs_after g w s t im0 v) None = Some (if repoints g im0 (tfmt g im0 t) t then repointed im0 v else im0).
 Proof.
   intros H. unfold imgs_after. destruct (repoints _ _ _ _); [|exact H].
   apply nth_upd_same. eapply img_at_lt; eauto.
@@ -84,34 +84,44 @@ Lemma do_save_cases g w s t hd : g_fix g = true ->
   (exists e, do_save g w s t hd = (w, ORefused e))
   \/ (exists im0 od v,
         img_at w s = Some im0 /\ (fid g t < length (w_fs w))%nat
-        /\ out_dtype g (with_hdt im0 hd) (pi_fmt (pinfo_of g t)) = Some od
-        /\ denote g (w_fs w) (reshaped g (with_hdt im0 hd) (pi_fmt (pinfo_of g t))) = RVal v
-        /\ writer_refuses g (pi_fmt (pinfo_of g t)) od = false
+        /\ out_dtype g (with_hdt im0 hd) (tfmt g im0 t) = Some od
+        /\ denote g (w_fs w) (reshaped g (with_hdt im0 hd) (tfmt g im0 t)) = RVal v
+        /\ writer_refuses g (tfmt g im0 t) od = false
         /\ do_save g w s t hd =
-           (mkW (upd (fid g t) (Some (written g (pi_fmt (pinfo_of g t)) od v (i_aff im0))) (w_fs w))
-                (if repoints g im0 (pi_fmt (pinfo_of g t)) t then upd s (Some (repointed im0 v)) (w_imgs w) else w_imgs w)
+           (mkW (upd (fid g t) (Some (written g (tfmt g im0 t) od v (i_aff im0))) (w_fs w))
+                (if repoints g im0 (tfmt g im0 t) t then upd s (Some (repointed im0 v)) (w_imgs w) else w_imgs w)
                 (w_dead w),
-            OSaved t (k_val (written g (pi_fmt (pinfo_of g t)) od v (i_aff im0))) od (i_aff im0)
-                   (k_scl (written g (pi_fmt (pinfo_of g t)) od v (i_aff im0))))).
+            OSaved t (k_val (written g (tfmt g im0 t) od v (i_aff im0))) od (i_aff im0)
+                   (k_scl (written g (tfmt g im0 t) od v (i_aff im0))))).
 Proof.
   intros Hf. unfold do_save. destruct (img_at w s) as [im0|] eqn:Hi; [|left; eauto].
   destruct (fid g t <? length (w_fs w))%nat eqn:Hlt; cbn [negb]; [|left; eauto]. apply Nat.ltb_lt in Hlt.
   fold (with_hdt im0 hd).
-  destruct (out_dtype g (with_hdt im0 hd) (pi_fmt (pinfo_of g t))) as [od|] eqn:Ho; [|left; eauto].
-  pose proof (denote_no_crash g (w_fs w) (reshaped g (with_hdt im0 hd) (pi_fmt (pinfo_of g t)))) as Hn.
-  destruct (denote g (w_fs w) (reshaped g (with_hdt im0 hd) (pi_fmt (pinfo_of g t)))) as [v| |] eqn:Hd;
+  destruct (out_dtype g (with_hdt im0 hd) (tfmt g im0 t)) as [od|] eqn:Ho; [|left; eauto].
+  pose proof (denote_no_crash g (w_fs w) (reshaped g (with_hdt im0 hd) (tfmt g im0 t))) as Hn.
+  destruct (denote g (w_fs w) (reshaped g (with_hdt im0 hd) (tfmt g im0 t))) as [v| |] eqn:Hd;
     [|left; eauto|congruence].
-  destruct (writer_refuses g (pi_fmt (pinfo_of g t)) od) eqn:Hw; [left; eauto|].
+  destruct (writer_refuses g (tfmt g im0 t) od) eqn:Hw; [left; eauto|].
   rewrite Hf, andb_false_r. right. exists im0, od, v.
   assert (Ha : i_aff (with_hdt im0 hd) = i_aff im0) by (destruct hd; reflexivity). rewrite Ha.
   repeat split; assumption.
 Qed.
 
 Definition save_op (o : op) : option (nat * nat * option dtype) :=
-  match o with Save s t => Some (s, t, None) | SaveU8 s t => Some (s, t, Some U1) | _ => None end.
+  match o with
+  | Save s t | ToFilename s t => Some (s, t, None)
+  | SaveU8 s t => Some (s, t, Some U1)
+  | _ => None
+  end.
 
-Lemma step_save g w o s t hd : w_dead w = false -> save_op o = Some (s, t, hd) -> step g w o = do_save g w s t hd.
-Proof. intros Hd H. unfold step. rewrite Hd. destruct o; inversion H; subst; reflexivity. Qed.
+(* a save operation is do_save, or (to_filename with a name of another class) a refusal that changes nothing *)
+Lemma step_save g w o s t hd : w_dead w = false -> save_op o = Some (s, t, hd) ->
+  step g w o = do_save g w s t hd \/ exists e, step g w o = (w, ORefused e).
+Proof.
+  intros Hd H. unfold step. rewrite Hd. destruct o; inversion H; subst; try (left; reflexivity).
+  destruct (img_at w s) as [im|]; [|right; eauto].
+  destruct (fmt_eqb (i_fmt im) (tfmt g im t)); [left; reflexivity|right; eauto].
+Qed.
 
 Lemma save_step_no_crash g w o : g_fix g = true -> is_write o = true -> snd (step g w o) <> OCrash.
 Proof.
@@ -120,8 +130,9 @@ Proof.
   { intros s t hd. destruct (do_save_cases g w s t hd Hf) as [[e E]|(im0 & od & v & _ & _ & _ & _ & _ & E)];
       rewrite E; discriminate. }
   destruct o; try discriminate.
-  - rewrite (step_save g w (Save s p) s p None Hdead eq_refl). apply SV.
-  - rewrite (step_save g w (SaveU8 s p) s p (Some U1) Hdead eq_refl). apply SV.
+  - destruct (step_save g w (Save s p) s p None Hdead eq_refl) as [E|[e E]]; rewrite E; [apply SV|discriminate].
+  - destruct (step_save g w (SaveU8 s p) s p (Some U1) Hdead eq_refl) as [E|[e E]]; rewrite E; [apply SV|discriminate].
+  - destruct (step_save g w (ToFilename s p) s p None Hdead eq_refl) as [E|[e E]]; rewrite E; [apply SV|discriminate].
   - (* SaveFull *)
     unfold step. rewrite Hdead. destruct (img_at w s) as [im|]; [|discriminate].
     pose proof (denote_no_crash g (w_fs w) im) as Hn.
@@ -159,22 +170,22 @@ Definition decodes (g : cfg) (w : world) (o : op) (w' : world) (x : out) : Prop 
   forall s t hd v d a k, save_op o = Some (s, t, hd) -> x = OSaved t v d a k ->
     exists im0 v0, img_at w s = Some im0
       (* the data the image had at that save (read through the class conversion) *)
-      /\ denote g (w_fs w) (reshaped g (with_hdt im0 hd) (pi_fmt (pinfo_of g t))) = RVal v0
-      /\ out_dtype g (with_hdt im0 hd) (pi_fmt (pinfo_of g t)) = Some d
+      /\ denote g (w_fs w) (reshaped g (with_hdt im0 hd) (tfmt g im0 t)) = RVal v0
+      /\ out_dtype g (with_hdt im0 hd) (tfmt g im0 t) = Some d
       /\ a = i_aff im0                                         (* and its affine *)
       (* are what the file behind the target name now holds, in dtype d with freshly computed factors *)
-      /\ file_at w' (fid g t) = Some (written g (pi_fmt (pinfo_of g t)) d v0 a)
-      /\ v = k_val (written g (pi_fmt (pinfo_of g t)) d v0 a) /\ k = k_scl (written g (pi_fmt (pinfo_of g t)) d v0 a)
+      /\ file_at w' (fid g t) = Some (written g (tfmt g im0 t) d v0 a)
+      /\ v = k_val (written g (tfmt g im0 t) d v0 a) /\ k = k_scl (written g (tfmt g im0 t) d v0 a)
       /\ (forall f, f <> fid g t -> file_at w' f = file_at w f)  (* no other file is touched *)
       /\ (forall s', s' <> s -> img_at w' s' = img_at w s')      (* no other image object changes *)
       (* the saving image is as before, or (its proxy read the target) now holds the written data in memory *)
-      /\ img_at w' s = Some (if repoints g im0 (pi_fmt (pinfo_of g t)) t then repointed im0 v0 else im0).
+      /\ img_at w' s = Some (if repoints g im0 (tfmt g im0 t) t then repointed im0 v0 else im0).
 
 Lemma decodes_step g w o : g_fix g = true -> decodes g w o (fst (step g w o)) (snd (step g w o)).
 Proof.
   intros Hf s t hd v d a k Hs Hx.
   destruct (w_dead w) eqn:Hdead; [unfold step in Hx; rewrite Hdead in Hx; discriminate|].
-  rewrite (step_save g w o s t hd Hdead Hs) in *.
+  destruct (step_save g w o s t hd Hdead Hs) as [E0|[e E0]]; rewrite E0 in *; [|discriminate].
   destruct (do_save_cases g w s t hd Hf) as [[e E]|(im0 & od & v0 & Hi & Hlt & Ho & Hd & Hw & E)];
     rewrite E in *; cbn [fst snd] in *; [discriminate|].
   inversion Hx; subst. exists im0, v0.
@@ -209,17 +220,21 @@ Proof.
 Qed.
 
 (* ------------------------------------------------------------------ (3) the image stays usable after a save *)
-(* names of one file belong to one image class, and a proxy image is of the class of the name it was loaded
-   from (true of every initial world, kept by every step): then a save onto the proxy's own file is never a
-   class conversion, and the image object itself is re-pointed *)
+(* names of one file belong to one name family; saving under a name of a family is idempotent on classes; a
+   proxy image has a class that fits the family of the name it was loaded from, and every file holds a class that
+   fits its names (true of every initial world, kept by every step): then a save onto the proxy's own file is
+   never a class conversion, and the image object itself is re-pointed *)
 Definition names_wf (g : cfg) : Prop :=
-  forall p t, fid g p = fid g t -> pi_fmt (pinfo_of g p) = pi_fmt (pinfo_of g t).
+  (forall p t, fid g p = fid g t -> pi_fmt (pinfo_of g p) = pi_fmt (pinfo_of g t))
+  /\ (forall x n, g_tclass g (g_tclass g x n) n = g_tclass g x n).
 Definition classes_ok (g : cfg) (w : world) : Prop :=
-  forall s im p d k mm, img_at w s = Some im -> i_src im = SProxy p d k mm -> i_fmt im = pi_fmt (pinfo_of g p).
+  (forall s im p d k mm, img_at w s = Some im -> i_src im = SProxy p d k mm ->
+                         g_tclass g (i_fmt im) (pi_fmt (pinfo_of g p)) = i_fmt im)
+  /\ (forall p c, file_at w (fid g p) = Some c -> g_tclass g (k_cls c) (pi_fmt (pinfo_of g p)) = k_cls c).
 
 Definition usable (g : cfg) (w : world) (o : op) (w' : world) (x : out) : Prop :=
   forall s t hd v d a k, save_op o = Some (s, t, hd) -> x = OSaved t v d a k ->
-    ~ (g_mixed g = true /\ d = U1 /\ pi_fmt (pinfo_of g t) = Mgh) ->
+    ~ (g_mixed g = true /\ d = U1) ->
     exists im', img_at w' s = Some im' /\ denote g (w_fs w') im' = RVal v.
 
 Lemma fmt_eqb_refl f : fmt_eqb f f = true.
@@ -229,59 +244,76 @@ Lemma usable_step g w o :
   g_fix g = true -> g_reshape_ok g = true -> g_repoint g = true -> names_wf g -> classes_ok g w ->
   usable g w o (fst (step g w o)) (snd (step g w o)).
 Proof.
-  intros Hf Hr Hp Hn Hc s t hd v d a k Hs Hx Hclip.
+  intros Hf Hr Hp [Hn _] [Hc _] s t hd v d a k Hs Hx Hclip.
   destruct (decodes_step g w o Hf s t hd v d a k Hs Hx)
     as (im0 & v0 & Hi & Hd & Ho & Ha & Hft & Hv & Hk & Hoth & _ & Hslot).
-  set (c := written g (pi_fmt (pinfo_of g t)) d v0 a) in *.
-  assert (Hv0 : v = v0) by (rewrite Hv; apply written_val; exact Hclip).
+  set (c := written g (tfmt g im0 t) d v0 a) in *.
+  assert (Hv0 : v = v0) by (rewrite Hv; apply written_val; intros (A & B & _); apply Hclip; auto).
   (* the data read before the save: the class conversion does not change what the proxy is *)
   assert (Hd0 : denote g (w_fs w) im0 = RVal v0).
   { unfold reshaped in Hd. rewrite Hr in Hd. cbn [negb] in Hd. rewrite andb_false_r in Hd.
     unfold denote in *. destruct hd; exact Hd. }
-  destruct (repoints g im0 (pi_fmt (pinfo_of g t)) t) eqn:Er.
+  destruct (repoints g im0 (tfmt g im0 t) t) eqn:Er.
   - exists (repointed im0 v0). split; [exact Hslot|]. rewrite Hv0. reflexivity.
   - exists im0. split; [exact Hslot|]. rewrite Hv0.
     unfold denote in *. destruct (i_src im0) as [vv|p ds ks mm] eqn:Es; [exact Hd0|].
     unfold fresh_read in *. destruct (Nat.eq_dec (fid g p) (fid g t)) as [He|Hne].
     + (* a proxy of the target file is always re-pointed *)
-      exfalso. unfold repoints in Er. rewrite Hp, Es, He, Nat.eqb_refl in Er.
-      rewrite (Hc s im0 p ds ks mm Hi Es), (Hn p t He), fmt_eqb_refl in Er. discriminate.
+      exfalso. unfold repoints, tfmt in Er. rewrite Hp, Es, He, Nat.eqb_refl in Er.
+      rewrite <- (Hn p t He), (Hc s im0 p ds ks mm Hi Es), fmt_eqb_refl in Er. discriminate.
     + specialize (Hoth (fid g p) Hne). unfold file_at in Hoth. rewrite Hoth. exact Hd0.
 Qed.
 
-Lemma classes_ok_step g w o : classes_ok g w -> classes_ok g (fst (step g w o)).
+Lemma classes_ok_step g w o : g_fix g = true -> names_wf g -> classes_ok g w -> classes_ok g (fst (step g w o)).
 Proof.
-  intros Hc. unfold step. destruct (w_dead w) eqn:Hdead; [exact Hc|].
-  assert (SET : forall s im, (forall p d k mm, i_src im = SProxy p d k mm -> i_fmt im = pi_fmt (pinfo_of g p)) ->
+  intros Hf [Hn Hidem] Hc. unfold step. destruct (w_dead w) eqn:Hdead; [exact Hc|].
+  destruct Hc as [Hc Hfs].
+  (* operations that leave the files alone and set one image slot *)
+  assert (SET : forall s im, (forall p d k mm, i_src im = SProxy p d k mm ->
+                                g_tclass g (i_fmt im) (pi_fmt (pinfo_of g p)) = i_fmt im) ->
                              classes_ok g (set_img w s im)).
-  { intros s im H s' im' p d k mm Hi Hs. rewrite img_at_set in Hi. destruct (Nat.eqb s' s).
+  { intros s im H. split; [|exact Hfs]. intros s' im' p d k mm Hi Hs. rewrite img_at_set in Hi. destruct (Nat.eqb s' s).
     - destruct (s <? length (w_imgs w))%nat; [|discriminate]. inversion Hi; subst. eapply H; eauto.
     - eapply Hc; eauto. }
+  assert (SAME : classes_ok g w) by (split; assumption).
   assert (SV : forall s t hd, classes_ok g (fst (do_save g w s t hd))).
-  { intros s t hd. unfold do_save. destruct (img_at w s) as [im0|] eqn:Hi; [|exact Hc].
-    destruct (negb (fid g t <? length (w_fs w))%nat); [exact Hc|].
-    destruct (out_dtype g _ _) as [od|]; [|exact Hc].
-    destruct (denote g (w_fs w) _) as [v0| |]; try exact Hc.
-    destruct (writer_refuses g _ _); [exact Hc|].
-    destruct (_ && negb (g_fix g)); [destruct (_ <? _); exact Hc|].
-    cbn [fst]. intros s' im' p d k mm Hi' Hs'. unfold img_at in Hi'; cbn [w_imgs] in Hi'.
-    destruct (repoints g im0 (pi_fmt (pinfo_of g t)) t); [|eapply Hc; eauto].
-    destruct (Nat.eq_dec s' s) as [->|Hne].
-    - rewrite nth_upd_same in Hi' by (eapply img_at_lt; eauto). inversion Hi'; subst. discriminate.
-    - rewrite nth_upd_other in Hi' by exact Hne. eapply Hc; eauto. }
+  { intros s t hd.
+    destruct (do_save_cases g w s t hd Hf) as [[e E]|(im0 & od & v & Hi & Hlt & Ho & Hd & Hw & E)];
+      rewrite E; cbn [fst]; [exact SAME|]. split.
+    - intros s' im' p d k mm Hi' Hs'. unfold img_at in Hi'; cbn [w_imgs] in Hi'.
+      destruct (repoints g im0 (tfmt g im0 t) t); [|eapply Hc; eauto].
+      destruct (Nat.eq_dec s' s) as [->|Hne].
+      + rewrite nth_upd_same in Hi' by (eapply img_at_lt; eauto). inversion Hi'; subst. discriminate.
+      + rewrite nth_upd_other in Hi' by exact Hne. eapply Hc; eauto.
+    - intros p c Hp. unfold file_at in Hp; cbn [w_fs] in Hp.
+      destruct (Nat.eq_dec (fid g p) (fid g t)) as [He|Hne].
+      + rewrite He, nth_upd_same in Hp by exact Hlt. inversion Hp; subst c.
+        assert (Hk : k_cls (written g (tfmt g im0 t) od v (i_aff im0)) = tfmt g im0 t).
+        { unfold written. destruct (is_int od); [destruct (fmt_eqb _ Mgh); [|destruct v]|]; reflexivity. }
+        rewrite Hk. unfold tfmt. rewrite (Hn p t He). apply Hidem.
+      + rewrite nth_upd_other in Hp by exact Hne. now apply Hfs. }
   destruct o; try apply SV.
-  - unfold do_load. destruct (file_at w (fid g p)); [|exact Hc].
-    destruct (s <? length (w_imgs w))%nat; [|exact Hc]. cbn [fst]. apply SET. intros p0 d0 k0 mm0 E. inversion E; subst. reflexivity.
-  - unfold do_fdata. destruct (img_at w s) as [im|] eqn:Hi; [|exact Hc].
-    destruct (i_cache im) as [|cv|cp cd]; [| exact Hc |destruct (alias_read g (w_fs w) cp cd); exact Hc].
-    destruct (denote g (w_fs w) im) as [v| |]; [|exact Hc|exact Hc]. cbn [fst]. apply SET. intros p d k mm E. exact (Hc s im p d k mm Hi E).
-  - destruct (img_at w s) as [im|] eqn:Hi; [|exact Hc]. cbn [fst]. apply SET. intros p d k mm E. exact (Hc s im p d k mm Hi E).
-  - destruct (img_at w s); exact Hc.
-  - destruct (img_at w s) as [im|] eqn:Hi; [|exact Hc]. cbn [fst]. apply SET. intros p d k mm E. exact (Hc s im p d k mm Hi E).
-  - destruct (img_at w s) as [im|] eqn:Hi; [|exact Hc]. cbn [fst]. apply SET. intros p d k mm E. exact (Hc s im p d k mm Hi E).
-  - destruct (img_at w s) as [im|]; [|exact Hc]. destruct (denote g (w_fs w) im); exact Hc.
-  - unfold do_tobytes. destruct (img_at w s) as [im|]; [|exact Hc].
-    destruct (i_fmt im); try exact Hc; destruct (denote g (w_fs w) im); exact Hc.
+  - unfold do_load. destruct (file_at w (fid g p)) as [c|] eqn:Hfa; [|exact SAME].
+    destruct (s <? length (w_imgs w))%nat; [|exact SAME]. cbn [fst]. apply SET.
+    intros p0 d0 k0 mm0 E. inversion E; subst. cbn [i_fmt]. now apply Hfs.
+  - unfold do_fdata. destruct (img_at w s) as [im|] eqn:Hi; [|exact SAME].
+    destruct (i_cache im) as [|cv|cp cd]; [| exact SAME |destruct (alias_read g (w_fs w) cp cd); exact SAME].
+    destruct (denote g (w_fs w) im) as [v| |]; [|exact SAME|exact SAME]. cbn [fst]. apply SET. intros p d k mm E. exact (Hc s im p d k mm Hi E).
+  - destruct (img_at w s) as [im|] eqn:Hi; [|exact SAME]. cbn [fst]. apply SET. intros p d k mm E. exact (Hc s im p d k mm Hi E).
+  - destruct (img_at w s); exact SAME.
+  - destruct (img_at w s) as [im|] eqn:Hi; [|exact SAME]. cbn [fst]. apply SET. intros p d k mm E. exact (Hc s im p d k mm Hi E).
+  - destruct (img_at w s) as [im|] eqn:Hi; [|exact SAME]. cbn [fst]. apply SET. intros p d k mm E. exact (Hc s im p d k mm Hi E).
+  - (* ToFilename *)
+    destruct (img_at w s) as [im|]; [|exact SAME]. destruct (fmt_eqb _ _); [apply SV|exact SAME].
+  - (* Clone *)
+    destruct (img_at w s) as [im|] eqn:Hi; [|exact SAME]. destruct (s2 <? length (w_imgs w))%nat; [|exact SAME].
+    cbn [fst]. apply SET. intros p d k mm E. exact (Hc s im p d k mm Hi E).
+  - (* EditMap *)
+    destruct (img_at w s) as [im|]; [|exact SAME]. destruct (i_src im); [exact SAME|].
+    destruct (denote g (w_fs w) im); exact SAME.
+  - destruct (img_at w s) as [im|]; [|exact SAME]. destruct (denote g (w_fs w) im); exact SAME.
+  - unfold do_tobytes. destruct (img_at w s) as [im|]; [|exact SAME].
+    destruct (i_fmt im); try exact SAME; destruct (denote g (w_fs w) im); exact SAME.
 Qed.
 
 Lemma usable_all g ops w :
@@ -294,8 +326,17 @@ Qed.
 
 (* every world without proxy images (all initial worlds: empty slots or array images) has its classes right *)
 Lemma no_proxies_classes_ok g w :
-  (forall s im, img_at w s = Some im -> exists v, i_src im = SArray v) -> classes_ok g w.
-Proof. intros H s im p d k mm Hi Hs. destruct (H s im Hi) as [v E]. rewrite E in Hs. discriminate. Qed.
+  (forall s im, img_at w s = Some im -> exists v, i_src im = SArray v) ->
+  (forall p c, file_at w (fid g p) = Some c -> g_tclass g (k_cls c) (pi_fmt (pinfo_of g p)) = k_cls c) ->
+  classes_ok g w.
+Proof.
+  intros H Hfs. split; [|exact Hfs]. intros s im p d k mm Hi Hs. destruct (H s im Hi) as [v E]. rewrite E in Hs. discriminate.
+Qed.
+
+Lemma platform_names_wf n paths fids fx sc mx ld :
+  (forall p t, nth p fids p = nth t fids t -> pi_fmt (nth p paths (mkP Nii false)) = pi_fmt (nth t paths (mkP Nii false))) ->
+  names_wf (platform_cfg n paths fids fx sc mx ld).
+Proof. intros H. split; [exact H|]. intros x m. destruct x, m; reflexivity. Qed.
 
 (* ------------------------------------------------------------------ (4) no crash when no save shortens a file under a live map *)
 Definition cfg_wf (g : cfg) : Prop := 0 < g_page g /\ (forall f, 0 <= g_foot g f).
@@ -312,7 +353,7 @@ Definition short_for (g : cfg) (t : nat) (od : dtype) (oi : option image) : bool
   match oi with
   | Some im => match i_cache im with
                | CAlias p d => Nat.eqb (fid g p) (fid g t)
-                               && (roundup (flen g p (mkK None od 0%nat 0%nat)) (g_page g) <? needed g p d)
+                               && (roundup (flen g p (mkK None od 0%nat 0%nat Nii)) (g_page g) <? needed g p d)
                | _ => false
                end
   | None => false
@@ -321,7 +362,7 @@ Definition hazard (g : cfg) (w : world) (o : op) : bool :=
   match save_op o with
   | Some (s, t, hd) =>
     match img_at w s with
-    | Some im => match out_dtype g (with_hdt im hd) (pi_fmt (pinfo_of g t)) with
+    | Some im => match out_dtype g (with_hdt im hd) (tfmt g im t) with
                  | Some od => existsb (short_for g t od) (w_imgs w)
                  | None => false
                  end
@@ -367,7 +408,7 @@ Proof.
   intros Wf Hf B Hz. unfold step. destruct (w_dead w) eqn:Hdead; [split; [discriminate|exact B]|].
   assert (SV : forall s t hd,
              match img_at w s with
-             | Some im => match out_dtype g (with_hdt im hd) (pi_fmt (pinfo_of g t)) with
+             | Some im => match out_dtype g (with_hdt im hd) (tfmt g im t) with
                           | Some od => existsb (short_for g t od) (w_imgs w)
                           | None => false
                           end
@@ -378,11 +419,11 @@ Proof.
     destruct (do_save_cases g w s t hd Hf) as [[e E]|(im0 & od & v & Hi & Hlt & Ho & Hd & Hw & E)];
       rewrite E; cbn [fst snd]; [split; [discriminate|exact B]|]. split; [discriminate|].
     rewrite Hi, Ho in Hz'.
-    set (c := written g (pi_fmt (pinfo_of g t)) od v (i_aff im0)).
-    destruct (written_dt_aff g (pi_fmt (pinfo_of g t)) od v (i_aff im0)) as [Hdt _]. fold c in Hdt.
+    set (c := written g (tfmt g im0 t) od v (i_aff im0)).
+    destruct (written_dt_aff g (tfmt g im0 t) od v (i_aff im0)) as [Hdt _]. fold c in Hdt.
     intros s' im' p' d' Hi' Hc'. unfold img_at in Hi'; cbn [w_imgs w_fs] in *.
     assert (Hi'' : nth s' (w_imgs w) None = Some im').
-    { destruct (repoints g im0 (pi_fmt (pinfo_of g t)) t); [|exact Hi'].
+    { destruct (repoints g im0 (tfmt g im0 t) t); [|exact Hi'].
       destruct (Nat.eq_dec s' s) as [->|Hne'].
       - rewrite nth_upd_same in Hi' by (eapply img_at_lt; eauto). inversion Hi'; subst im'. discriminate.
       - now rewrite nth_upd_other in Hi' by exact Hne'. }
@@ -429,6 +470,19 @@ Proof.
     split; [discriminate|]. apply backed_set_img; [exact B|]. intros p d E. cbn [i_cache] in E. eapply B; eauto.
   - (* Save *) apply (SV s p None). exact Hz.
   - (* SaveU8 *) apply (SV s p (Some U1)). exact Hz.
+  - (* ToFilename *)
+    cbn [hazard save_op] in Hz. destruct (img_at w s) as [im|] eqn:Hi; [|split; [discriminate|exact B]].
+    destruct (fmt_eqb (i_fmt im) (tfmt g im p)); [|split; [discriminate|exact B]].
+    apply (SV s p None). rewrite Hi. exact Hz.
+  - (* Clone *)
+    destruct (img_at w s) as [im|] eqn:Hi; [|split; [discriminate|exact B]].
+    destruct (s2 <? length (w_imgs w))%nat; [|split; [discriminate|exact B]].
+    split; [discriminate|]. apply backed_set_img; [exact B|]. intros p d E; discriminate.
+  - (* EditMap *)
+    destruct (img_at w s) as [im|] eqn:Hi; [|split; [discriminate|exact B]].
+    destruct (i_src im); [split; [discriminate|exact B]|].
+    pose proof (denote_no_crash g (w_fs w) im) as Hn.
+    destruct (denote g (w_fs w) im); [split; [discriminate|exact B]|split; [discriminate|exact B]|congruence].
   - (* SaveFull *)
     pose proof (save_step_no_crash g w (SaveFull s) Hf eq_refl) as Hnc. unfold step in Hnc. rewrite Hdead in Hnc.
     split; [exact Hnc|].
@@ -457,3 +511,112 @@ Proof. intros H s im p d Hi Hc. rewrite (H s im Hi) in Hc. discriminate. Qed.
 
 Lemma platform_wf n paths fids fx sc mx ld : cfg_wf (platform_cfg n paths fids fx sc mx ld).
 Proof. split; [reflexivity|]. intros f; destruct f; vm_compute; discriminate. Qed.
+
+(* ------------------------------------------------------------------ (5) S-C09b exactly: which histories are affected *)
+(* does some image hold a cached memory map whose file no longer covers it? *)
+Definition unbacked_img (g : cfg) (fs : list (option content)) (oi : option image) : bool :=
+  match oi with
+  | Some im => match i_cache im with
+               | CAlias p d => match alias_read g fs p d with RCrash => true | _ => false end
+               | _ => false
+               end
+  | None => false
+  end.
+Definition unbackedb (g : cfg) (w : world) : bool := existsb (unbacked_img g (w_fs w)) (w_imgs w).
+
+(* decidable predicate on (configuration, initial world, history): at some point of the run a live cached map
+   loses its backing (a save has made its file shorter than the map) *)
+Fixpoint affected (g : cfg) (w : world) (ops : list op) : bool :=
+  match ops with
+  | [] => false
+  | o :: r => unbackedb g (fst (step g w o)) || affected g (fst (step g w o)) r
+  end.
+
+Lemma backed_iff g w : backed g w <-> unbackedb g w = false.
+Proof.
+  split.
+  - intros B. destruct (unbackedb g w) eqn:E; [|reflexivity]. exfalso.
+    apply existsb_exists in E as (oi & Hin & Hu). destruct oi as [im|]; [|discriminate].
+    cbn [unbacked_img] in Hu. destruct (i_cache im) as [| |p d] eqn:Hc; try discriminate.
+    apply In_nth with (d := None) in Hin as (s & _ & Hs).
+    destruct (alias_read g (w_fs w) p d) eqn:Ea; try discriminate.
+    exact (B s im p d Hs Hc Ea).
+  - intros E s im p d Hi Hc Ea.
+    assert (existsb (unbacked_img g (w_fs w)) (w_imgs w) = true).
+    { apply existsb_exists. exists (Some im). split; [now apply (img_at_in w s)|].
+      cbn [unbacked_img]. now rewrite Hc, Ea. }
+    unfold unbackedb in E. congruence.
+Qed.
+
+(* from a world whose maps are all backed no operation crashes *)
+Lemma backed_step_no_crash g w o : g_fix g = true -> backed g w -> snd (step g w o) <> OCrash.
+Proof.
+  intros Hf B. destruct (is_write o) eqn:Hw; [now apply save_step_no_crash|].
+  unfold step. destruct (w_dead w); [discriminate|]. destruct o; try discriminate.
+  - unfold do_load. destruct (file_at w (fid g p)); [|discriminate]. destruct (_ <? _)%nat; discriminate.
+  - unfold do_fdata. destruct (img_at w s) as [im|] eqn:Hi; [|discriminate].
+    destruct (i_cache im) as [|v|p d] eqn:Hc.
+    + pose proof (denote_no_crash g (w_fs w) im). destruct (denote g (w_fs w) im); try discriminate; congruence.
+    + discriminate.
+    + pose proof (B s im p d Hi Hc). destruct (alias_read g (w_fs w) p d); try discriminate; congruence.
+  - destruct (img_at w s); discriminate.
+  - destruct (img_at w s); discriminate.
+  - destruct (img_at w s); discriminate.
+  - destruct (img_at w s); discriminate.
+  - destruct (img_at w s) as [im|]; [|discriminate]. destruct (_ <? _)%nat; discriminate.
+  - destruct (img_at w s) as [im|]; [|discriminate]. destruct (i_src im); [discriminate|].
+    pose proof (denote_no_crash g (w_fs w) im). destruct (denote g (w_fs w) im); try discriminate; congruence.
+Qed.
+
+Lemma no_crash_unaffected g : g_fix g = true ->
+  forall ops w, backed g w -> affected g w ops = false -> ~ In OCrash (snd (run g w ops)).
+Proof.
+  intros Hf. induction ops as [|o r IH]; intros w B Ha; [simpl; tauto|].
+  cbn [affected] in Ha. apply orb_false_elim in Ha as [H1 H2].
+  rewrite run_cons. cbn [snd]. intros [E|E].
+  - exact (backed_step_no_crash g w o Hf B E).
+  - apply backed_iff in H1. exact (IH _ H1 H2 E).
+Qed.
+
+(* the predicate is tight: the moment a live map loses its backing, reading that image kills the process *)
+Lemma step_not_dead g w o : g_fix g = true -> backed g w -> w_dead w = false -> w_dead (fst (step g w o)) = false.
+Proof.
+  intros Hf B Hd. pose proof (backed_step_no_crash g w o Hf B) as Hn.
+  assert (K : forall (x : world * out), (snd x = OCrash \/ w_dead (fst x) = false) -> snd x <> OCrash ->
+              w_dead (fst x) = false) by (intros x [H|H] Hx; [contradiction|exact H]).
+  apply K; [|exact Hn]. clear K Hn. unfold step. rewrite Hd. destruct o.
+  - right; cbn [fst]. unfold do_load. destruct (file_at w (fid g p)); [|exact Hd]. destruct (_ <? _)%nat; exact Hd.
+  - unfold do_fdata. destruct (img_at w s) as [im|]; [|right; exact Hd].
+    destruct (i_cache im); [destruct (denote g (w_fs w) im)|..]; try (right; exact Hd); try (left; reflexivity).
+    destruct (alias_read g (w_fs w) p d); try (right; exact Hd); left; reflexivity.
+  - right; cbn [fst]. destruct (img_at w s); exact Hd.
+  - right; cbn [fst]. destruct (img_at w s); exact Hd.
+  - right; cbn [fst]. destruct (img_at w s); exact Hd.
+  - right; cbn [fst]. destruct (img_at w s); exact Hd.
+  - destruct (do_save_cases g w s p None Hf) as [[e E]|(im0 & od & v & _ & _ & _ & _ & _ & E)]; rewrite E; right; exact Hd.
+  - destruct (do_save_cases g w s p (Some U1) Hf) as [[e E]|(im0 & od & v & _ & _ & _ & _ & _ & E)]; rewrite E; right; exact Hd.
+  - destruct (img_at w s) as [im|]; [|right; exact Hd]. destruct (fmt_eqb _ _); [|right; exact Hd].
+    destruct (do_save_cases g w s p None Hf) as [[e E]|(im0 & od & v & _ & _ & _ & _ & _ & E)]; rewrite E; right; exact Hd.
+  - right; cbn [fst]. destruct (img_at w s); [|exact Hd]. destruct (_ <? _)%nat; exact Hd.
+  - destruct (img_at w s) as [im|]; [|right; exact Hd]. destruct (i_src im); [right; exact Hd|].
+    destruct (denote g (w_fs w) im); try (right; exact Hd); left; reflexivity.
+  - destruct (img_at w s) as [im|]; [|right; exact Hd].
+    destruct (denote g (w_fs w) im); try (right; exact Hd); left; reflexivity.
+  - unfold do_tobytes. destruct (img_at w s) as [im|]; [|right; exact Hd].
+    destruct (i_fmt im); try (right; exact Hd); destruct (denote g (w_fs w) im); try (right; exact Hd); left; reflexivity.
+Qed.
+
+Lemma unbacked_read_crashes g w : w_dead w = false -> unbackedb g w = true ->
+  exists s, snd (step g w (Fdata s)) = OCrash.
+Proof.
+  intros Hd E. apply existsb_exists in E as (oi & Hin & Hu). destruct oi as [im|]; [|discriminate].
+  cbn [unbacked_img] in Hu. destruct (i_cache im) as [| |p d] eqn:Hc; try discriminate.
+  apply In_nth with (d := None) in Hin as (s & _ & Hs). exists s.
+  unfold step. rewrite Hd. unfold do_fdata, img_at. rewrite Hs, Hc.
+  destruct (alias_read g (w_fs w) p d); try discriminate. reflexivity.
+Qed.
+
+Lemma affected_is_real g w o : g_fix g = true -> backed g w -> w_dead w = false ->
+  unbackedb g (fst (step g w o)) = true ->
+  exists s, snd (step g (fst (step g w o)) (Fdata s)) = OCrash.
+Proof. intros Hf B Hd E. apply unbacked_read_crashes; [now apply step_not_dead|exact E]. Qed.
